@@ -463,6 +463,10 @@ func (s *Set) Value(_ context.Context, t *dials.Type) (reflect.Value, error) {
 		if base := stripAllPtrs(ffield.Type()); base != stripTypePtr(ffield.Type()) {
 			// user-declared pointer(s) below the pointerification (**int):
 			// registerFlags registered the flag for the base type
+			if fval.Kind() == reflect.Ptr && !fval.IsNil() && fval.Type().Elem().ConvertibleTo(base) {
+				// the complex flag helpers' Get hands out a pointer
+				fval = fval.Elem()
+			}
 			if willOverflow(fval, reflect.New(base).Elem()) {
 				setErr = fmt.Errorf("value for flag %q (%s) would overflow type %s",
 					f.Name, f.Value.String(), base)
